@@ -38,6 +38,23 @@ CHECKS = {
                      '(Delay: n==0 AND source; iterator-backed: look-ahead slot empty); look-ahead protocol of from_iter/from_interleaved_samples_iter; step functions of '
                      'UntilExhausted, Take, IntoInterleavedSamples::next_sample; lift wiring. The history-level statement follows by induction (paper).',
                 note=TB + '; user iterators and closures are opaque effects.'),
+    'C08': dict(level='other', ref='DESIGN.md §5 C08, Appendix C.4',
+                technique='path summaries over MIR with generic-loop-iteration summarisation; rational-function normal form for ratio formulas and the linear blend',
+                text='Converter::next conforms to the accumulator step function (one pull per whole unit, frame handed over unmodified, interpolate at the fraction, add ratio), '
+                     'exhaustion predicate, ratio constructors/setters as rational functions with the > 0 assert, MulHz wiring, Floor/Linear update order and blend polynomial. '
+                     'Positions/counts follow by induction on paper; accumulator rounding is not decided.',
+                note=TB + '; amplitude abstraction (sample conversions = identity on the real amplitude, C01/C02); rounding ignored in polynomial identities.'),
+    'C12': dict(level='other', ref='DESIGN.md §5 C12, Appendix C.2',
+                technique='path summaries over MIR: step-function conformance against the three-transition fork automaton, sibling agreement, construction-site rules',
+                text='Each of the four branch next() bodies has exactly the transitions hit/dry/lead with the stated effects, order, argument flow and flag write; A/B use opposite flag '
+                     'values and Rc/Ref siblings agree; pending_frames, branch exhaustion, fork() (asserted empty buffer, definite flag) and by_ref/by_rc aliasing. The quantifier over '
+                     'interleavings is discharged by the paper invariant over exactly these transitions; no schedule is explored.',
+                note=TB + '; ring buffer treated as an opaque FIFO (C06); RefCell/Rc as documented.'),
+    'C14': dict(level='other', ref='DESIGN.md §5 C14',
+                technique='path summaries over MIR with loop summarisation: step-function conformance of the prefetch protocol',
+                text='Buffered::next pops first and refills with exactly 0..max_len() pulls (each pushed) only when empty; next_frames refills iff len()==0 and hands out the same ring buffer; '
+                     'BufferedFrames::next is pop; is_exhausted = empty AND source exhausted. With FIFO semantics (C06) the stream is prefill ++ source (paper).',
+                note=TB + '; ring buffer treated as an opaque FIFO (C06).'),
 }
 
 NOT_YET = 'check not implemented yet in this revision of /verif (see DESIGN.md §10 build order)'
